@@ -3242,6 +3242,22 @@ RESUME_VALIDATE_CERTS:
         rc = -1;  /* Force the check on existence of user callback */
     }
 
+    /*  matrixValidateCertsExt reports date, keyUsage and authority key
+        identifier problems only through the authStatus of the certificate
+        and still returns success.  A pending alert or a certificate that
+        did not reach PS_CERT_AUTH_PASS is a validation failure as well. */
+    if (rc >= 0 && ssl->err != SSL_ALERT_NONE)
+    {
+        rc = PS_CERT_AUTH_FAIL;
+    }
+    for (cert = ssl->sec.cert; rc >= 0 && cert != NULL; cert = cert->next)
+    {
+        if (cert->authStatus != PS_CERT_AUTH_PASS)
+        {
+            rc = PS_CERT_AUTH_FAIL;
+        }
+    }
+
     if (rc < 0)
     {
         psTraceInfo("WARNING: cert did not pass internal validation test\n");
